@@ -464,6 +464,11 @@ def _strict(ctx, eng, label):
     eng.unmodelled = []
 
 
+def native_witness(ctx):
+    """concrete search on the real code, usable when the contracts no longer apply to a changed source (vc/check.py)"""
+    return core.run_native(open(os.path.join(os.path.dirname(__file__), 'native', 'c27_replay.py')).read(), {})
+
+
 def build(ctx):
     e = pyvc.Engine(ctx, classifier()).run()
     _strict(ctx, e, 'exception_log_level_if_retryable')
